@@ -24,5 +24,7 @@ Verdict ==
 
 Report == /\ pc = "done" /\ Verdict /\ pc' = "reported" /\ UNCHANGED <<inp, i, start, ext, cur, res, t>>
 
-Next == (SegNext /\ UNCHANGED t) \/ Report
+\* a stuck trace is a TLC deadlock error (machinery failure), never a silent pass
+Terminated == pc = "reported" /\ UNCHANGED tvars
+Next == (SegNext /\ UNCHANGED t) \/ Report \/ Terminated
 =============================================================================
